@@ -3,6 +3,8 @@ from __future__ import annotations
 
 from ..report import Result
 from ..rules.cache import run_cache, who_writes
+from ..rules.formula import effects_check, formula_check
+from . import aave_refs as R
 
 EXPLANATION = (
     "Typestate analysis of the memo caches of AaveV3Market (R-CACHE). The DictCache fields, their fill getters and "
@@ -19,12 +21,22 @@ EXPLANATION = (
 
 def run(model, tier="quick"):
     res = Result("C13", EXPLANATION)
-    res.rules = ["R-CACHE", "R-EFFECT"]
+    res.rules = ["R-CACHE", "R-EFFECT", "R-FORMULA", "R-PAIR"]
     n_writers, caches = run_cache(model, res, "AaveV3Market", "C13")
     res.floor("caches_found", len(caches), 5)
     res.floor("dependency_writer_methods", n_writers, 6)
     res.floor("reset_events", res.units["reset_events"], 20)
     who_writes(model, res, "AaveV3Market", ["_supplies", "_borrows"] + caches, ["demeter/aave/market.py"])
+    # the formulas of the views that are not risk figures (those are compared under C11 / C10)
+    views = ["total_supply_value", "total_borrows_value", "supply_apy", "borrow_apy", "supplies_value", "borrows_value", "safe_div_zero",
+             "rate_to_apy"]
+    formula_check(res, model, "AaveV3Market.ltv", R.REF_LTV, "ltv = total debt value / total supply value (inf without supplies)", opaque=views)
+    formula_check(res, model, "AaveV3CoreLib.get_apy", R.REF_GET_APY, "apy = value-weighted mean of the per-token APYs", opaque=views)
+    formula_check(res, model, "AaveV3CoreLib.safe_div_zero", R.REF_SAFE_DIV, "a/b, 0 when b is 0")
+    formula_check(res, model, "AaveV3Market.total_apy", R.REF_TOTAL_APY, "net apy = (supply apy*supplies - borrow apy*debts)/(supplies - debts)",
+                  opaque=views)
+    effects_check(res, model, "AaveV3Market.set_market_status", R.REF_AAVE_SET_STATUS,
+                  "new bar: this bar's row, prices stored, all five caches emptied", ["set_market_status", "reset"])
     res.assumptions = [
         "the only memo caches are the DictCache-typed fields assigned in AaveV3Market.__init__ (discovered, not listed)",
         "a supply whose collateral flag is False does not contribute to the collateral view (collateral-conditional reset idiom)",
